@@ -16,9 +16,9 @@ for _k in UNQUOTERS:
     name_fn(UNQUOTERS[_k][0], "ural.quote:safely_unquote_" + _k)
 
 BOUNDS = {
-    "quick": "every str of length 0..4 (four safely_unquote_*), 0..3 (safely_quote), 0..5 (upper_quoted) over all Unicode scalar values (no surrogates); "
-             "plus, for the unquoters, every string of the token shapes EE, EEc, cEE, eee (E = escape with two symbolic hex digits, e = escape of a byte >= 0x80, c = any code point)",
-    "thorough": "every str of length 0..6 (four safely_unquote_*), 0..5 (safely_quote), 0..7 (upper_quoted) over all Unicode scalar values (no surrogates); token shapes EE, EEc, cEE, EEE, eeee, eeec, ceee, EcE, eece",
+    "quick": "every str of length 0..3 (four safely_unquote_*, safely_quote), 0..5 (upper_quoted) over all Unicode scalar values (no surrogates); "
+             "plus, for the unquoters, every string of the token shapes ee, eec (e = escape of a byte >= 0x80 with two symbolic hex digits, c = any code point)",
+    "thorough": "every str of length 0..6 (four safely_unquote_*), 0..5 (safely_quote), 0..7 (upper_quoted) over all Unicode scalar values (no surrogates); token shapes EE, EEc, cEE, eee, EEE, eeee, eeec, ceee, EcE, eece (E = any escape)",
 }
 STUBS = ["str.encode('utf-8') / bytes.decode('utf-8','replace'): forking UTF-8 codec model (values.utf8_*)",
          "urllib.parse.quote: per-UTF-8-byte keep/escape model (models.m_quote)",
@@ -65,7 +65,7 @@ def upper(st, n):
 
 def items(tier):
     out = []
-    nu, nq, nup = (4, 3, 5) if tier == "quick" else (6, 5, 7)
+    nu, nq, nup = (3, 3, 5) if tier == "quick" else (6, 5, 7)
     for which in UNQUOTERS:
         for n in range(0, nu + 1):
             it = {"fn": "unquoter", "params": {"which": which, "n": n}, "name": "unquote_%s n=%d" % (which, n),
@@ -73,7 +73,7 @@ def items(tier):
             if n >= 4:
                 it["defer_depth"] = 8
             out.append(it)
-    shapes = ["EE", "EEc", "cEE", "eee"] if tier == "quick" else ["EE", "EEc", "cEE", "EEE", "eeee", "eeec", "ceee", "EcE", "eece"]
+    shapes = ["ee", "eec"] if tier == "quick" else ["EE", "EEc", "cEE", "eee", "EEE", "eeee", "eeec", "ceee", "EcE", "eece"]
     for which in UNQUOTERS:
         for sh in shapes:
             out.append({"fn": "unquoter_tokens", "params": {"which": which, "shape": sh}, "name": "unquote_%s tokens=%s" % (which, sh),
